@@ -186,7 +186,7 @@ def gen_ops(rng):
 def judge(ctx, ops):
     hist, c, nt = expand(ops)
     # operations on predicates that have no facts at that moment are counted from the reference dumps
-    d = H.compare_history(ctx['real'], hist)
+    d = H.compare_history(ctx['real'], hist, atom_mode=_atom_mode(hist, c))
     r = {'c': c, 'nt': False, 'key': ops}
     if d['status'] == 'discard':
         r['discard'] = d['reason']
@@ -273,3 +273,13 @@ def replay(ctx, w):
     from ..diff import totuple
     ops = [totuple(o) for o in w['ops']]
     return judge(ctx, ops)
+
+
+def _atom_mode(hist, c):
+    """where the host program's atom objects come from (same terms in every mode): made at the time of use, made once
+    and held (also across clear()), or made by another engine"""
+    import hashlib
+    k = int(hashlib.md5(repr(hist).encode('utf8', 'backslashreplace')).hexdigest(), 16) % 10
+    mode = 'fresh' if k < 5 else ('held' if k < 8 else 'other')
+    c['atoms_' + mode] = 1
+    return mode
